@@ -32,6 +32,7 @@ fn main() {
         std::process::exit(2);
     }
     let suite = args[1].clone();
+    util::enable_logging();
     if suite == "__child" {
         childrun::child_main();
         return;
